@@ -319,8 +319,18 @@ int validate_chunk(zckChunk *idx, zck_log_type bad_checksum) {
         idx->valid = 0;
         return 0;
     }
-    if(idx->comp_length == 0)
-        memset(digest, 0, idx->digest_size);
+    /* A chunk without stored bytes may carry an all-zero checksum ("no
+     * dictionary") or, as the format describes every chunk checksum, the
+     * checksum of nothing: only override the calculated checksum for the
+     * former */
+    if(idx->comp_length == 0) {
+        bool all_zero = true;
+        for(size_t i = 0; i < (size_t)idx->digest_size; i++)
+            if(idx->digest[i] != 0)
+                all_zero = false;
+        if(all_zero)
+            memset(digest, 0, idx->digest_size);
+    }
     char *pdigest = zck_get_chunk_digest(idx);
     zck_log(ZCK_LOG_DDEBUG, "Expected chunk checksum:   %s", pdigest);
     free(pdigest);
